@@ -1,4 +1,4 @@
-import Sentinel.Lemmas.MetricLog
+import Sentinel.Lemmas.MetricLog2
 /-!
 # C17 — Metric log is searchable, bounded, and survives truncation at any byte
 (property-level statements; helper lemmas live in `Sentinel/Lemmas/MetricLog.lean`)
@@ -243,6 +243,70 @@ example : Covered
     2000 := by
   unfold Covered
   decide
+
+/-! ### `FindFromTimeWithMaxLines`
+
+The limit counts **lines**: the reader takes lines from the first one not before `begin`; once `maxLines` lines
+have been taken it goes on only while the second stays the same (so the second in which the limit is
+reached is completed) — except that at the end of a file it stops as soon as the limit is reached, even if
+that second continues in the next file.  `specFrom` is this rule over the per-file item lists. -/
+
+/-- L0: the reference answer is a prefix of the retained items not before `begin` — only written items,
+    in timestamp order, each once, none skipped — and it is all of them or at least `maxLines` of them -/
+theorem specFrom_sound_complete (files : List (List Item)) (b m : Nat) (hs : files.flatten.Pairwise secLe) :
+    specFrom files b m <+: (files.flatten.filter fun it => decide (b / 1000 ≤ it.ts / 1000)) ∧
+    (specFrom files b m = (files.flatten.filter fun it => decide (b / 1000 ≤ it.ts / 1000)) ∨
+      m ≤ (specFrom files b m).length) :=
+  specFrom_prefix_complete files b m hs
+
+theorem flatten_map_lines (fs : Dir) : (fs.map (·.lines)).flatten = retained fs := by
+  simp [retained, List.flatMap]
+
+/-- the common core of the two theorems below -/
+theorem from_time_of_inv (w : Writer) (hinv : Inv w w.latestOpSec) (hlines : LinesValid w) (hlat : w.latestOpSec < 2 ^ 64)
+    (b m : Nat) (hq : 0 < m ∨ 0 < b / 1000) (hsize : ∀ f ∈ w.files, f.data.length < 2 ^ 64) (hcov : Covered w.files b) :
+    (findFrom w.files {} b m).2 = specFrom (w.files.map (·.lines)) b m := by
+  refine findFrom_fresh_partial _ b m ?_ (indexCorrect_of_inv _ hinv.ents hinv.sorted _ hcov) hq
+  intro f hf
+  refine ⟨hinv.ok f hf, ?_, hlines f hf⟩
+  intro en hen
+  obtain ⟨pre, rest, hsplit⟩ := List.append_of_mem hf
+  have hen' : en ∈ allEnts w.files := by
+    rw [hsplit, allEnts_append, allEnts_cons]; simp [hen]
+  refine ⟨lt_of_le_of_lt (hinv.bound en hen') hlat, ?_⟩
+  obtain ⟨j, _, hoff, _, _⟩ := EntsOK_split [] pre f rest (hsplit ▸ hinv.ents) en hen
+  have h1 := serialise_take_length_le f.lines j
+  have h2 := hsize f hf
+  rw [(hinv.ok f hf).1] at h2
+  omega
+
+/-- **from_time_complete_partial_events**: for every accepted history of writes and restarts, under
+    `Covered`, a fresh searcher's `FindFromTimeWithMaxLines begin maxLines` returns exactly `specFrom` of the
+    retained files; hence (`specFrom_sound_complete`, `retained_ordered`) a prefix of the retained items not
+    before `begin`, complete or at least `maxLines` long.  `hq` excludes only "limit 0 with `begin` in
+    second 0" (the reader's initial `lastSec = 0`). -/
+theorem from_time_complete_partial_events (now maxSize maxFiles : Nat) (hnow : now / 1000 < 2 ^ 64)
+    (evs : List Ev) (hok : EvsOK (Writer.new now maxSize maxFiles) evs) (b m : Nat) (hq : 0 < m ∨ 0 < b / 1000)
+    (hsize : ∀ f ∈ (runEvents (Writer.new now maxSize maxFiles) evs).files, f.data.length < 2 ^ 64)
+    (hcov : Covered (runEvents (Writer.new now maxSize maxFiles) evs).files b) :
+    (findFrom (runEvents (Writer.new now maxSize maxFiles) evs).files {} b m).2
+        = specFrom ((runEvents (Writer.new now maxSize maxFiles) evs).files.map (·.lines)) b m ∧
+    (findFrom (runEvents (Writer.new now maxSize maxFiles) evs).files {} b m).2
+        <+: ((retained (runEvents (Writer.new now maxSize maxFiles) evs).files).filter
+              fun it => decide (b / 1000 ≤ it.ts / 1000)) ∧
+    ((findFrom (runEvents (Writer.new now maxSize maxFiles) evs).files {} b m).2
+        = ((retained (runEvents (Writer.new now maxSize maxFiles) evs).files).filter
+              fun it => decide (b / 1000 ≤ it.ts / 1000)) ∨
+      m ≤ (findFrom (runEvents (Writer.new now maxSize maxFiles) evs).files {} b m).2.length) := by
+  have h := runEvents_inv (Writer.new now maxSize maxFiles) evs hok (inv_new now maxSize maxFiles)
+    (new_linesValid now maxSize maxFiles) (by simpa [Writer.new] using hnow)
+  have e := from_time_of_inv _ h.1 h.2.1 h.2.2 b m hq hsize hcov
+  have hs : ((runEvents (Writer.new now maxSize maxFiles) evs).files.map (·.lines)).flatten.Pairwise secLe := by
+    rw [flatten_map_lines]; exact h.1.ord.2.1
+  have l0 := specFrom_sound_complete _ b m hs
+  rw [flatten_map_lines] at l0
+  rw [e]
+  exact ⟨rfl, l0.1, l0.2⟩
 
 /-! ## 6. `search_total`: searching never fails, whatever the bytes are -/
 
